@@ -68,6 +68,7 @@ class Case:
         self.cont = {}
         self.dir = os.path.join(TMPROOT, f"search-{os.getpid()}-{n}")
         self.sigfiles = None
+        self.cli_files = []
 
     def close(self):
         for c in self.cont.values():
@@ -207,6 +208,213 @@ def selected(cont, spec, query, containment):
     return cont
 
 
+
+# --------------------------------------------------------------------------
+# command-line tier: `sourmash search` / `sourmash prefetch` run through the real entry point
+# (sourmash.__main__.main with an argv), compared with the in-process API on the same database files
+
+import contextlib
+import csv
+import io
+
+
+def run_cli(argv):
+    """-> (exit code, stdout text, exception class or None)"""
+    from sourmash.__main__ import main as sm_main
+    out = io.StringIO()
+    err = io.StringIO()
+    code, exc = 0, None
+    try:
+        with contextlib.redirect_stdout(out), contextlib.redirect_stderr(err):
+            sm_main(argv)
+    except SystemExit as e:
+        code = e.code if isinstance(e.code, int) else (0 if e.code is None else 1)
+    except BaseException as e:          # noqa: BLE001
+        if isinstance(e, KeyboardInterrupt):
+            raise
+        code, exc = 1, exc_name(e)
+    finally:
+        set_quiet(True)
+    return code, out.getvalue(), exc
+
+
+def build_db_file(case, n, kind, sigs):
+    """write one database of the given kind holding `sigs`; -> path"""
+    base = case.tmp(f"db{n}")
+    if kind == "sig":
+        p = base + ".sig"
+        with open(p, "w") as fp:
+            sigmod.save_signatures_to_json(sigs, fp)
+    elif kind == "dir":
+        p = base + "_dir"
+        os.makedirs(p, exist_ok=True)
+        for k, ss in enumerate(sigs):
+            with open(os.path.join(p, f"{k:03d}.sig"), "w") as fp:
+                sigmod.save_signatures_to_json([ss], fp)
+    elif kind == "zip":
+        p = base + ".zip"
+        with SaveSignaturesToLocation(p) as save:
+            for ss in sigs:
+                save.add(ss)
+    elif kind == "sbt":
+        p = base + ".sbt.zip"
+        t = create_sbt_index(bloom_filter_size=50, n_children=2)
+        for ss in sigs:
+            t.insert(ss)
+        t.save(p)
+    elif kind == "lca":
+        p = base + ".lca.json"
+        sc = max(ss.minhash.scaled for ss in sigs)
+        db = LCA_Database(KSIZE, sc)
+        for ss in sigs:
+            db.insert(ss)
+        db.save(p)
+    elif kind == "sql":
+        p = base + ".sqldb"
+        db = SqliteIndex.create(p)
+        for ss in sigs:
+            db.insert(ss)
+        db.commit()
+        db.close()
+    elif kind == "mf":
+        d = base + "_mfdir"
+        os.makedirs(d, exist_ok=True)
+        files = []
+        for k, ss in enumerate(sigs):
+            f = os.path.join(d, f"{k:03d}.sig")
+            with open(f, "w") as fp:
+                sigmod.save_signatures_to_json([ss], fp)
+            files.append(f)
+        m = CollectionManifest.create_manifest(((ss, f) for ss, f in zip(sigs, files)), include_signature=False)
+        p = base + ".manifest.csv"
+        with open(p, "w", newline="") as fp:
+            m.write_to_csv(fp, write_header=True)
+    else:
+        raise AssertionError(kind)
+    return p
+
+
+def parse_dbspec(case, spec):
+    """'sig:0,1;zip:2' -> [(kind, path)]"""
+    out = []
+    for n, part in enumerate(spec.split(";")):
+        kind, ids = part.split(":")
+        sigs = [case.sk[int(i)] for i in ids.split(",") if i != ""]
+        out.append((kind, build_db_file(case, f"{len(case.cli_files)}_{n}", kind, sigs)))
+        case.cli_files.append(out[-1][1])
+    return out
+
+
+def fmt_rows(rows):
+    return ",".join(f"{n}/{m}/{x}" for n, m, x in rows) or "-"
+
+
+def read_sig_hashes(path):
+    out = []
+    if not os.path.exists(path) or os.path.getsize(path) < 5:      # "[]": nothing was saved
+        return out
+    for ss in sourmash.load_file_as_signatures(path):
+        out.append((ss.name, ss.md5sum(), ss.minhash.scaled, sorted(ss.minhash.hashes)))
+    return out
+
+
+def cli_search(case, a):
+    spec, mode, best, thrtext, nres, ignore = a[0], a[1], int(a[2]), a[3], int(a[4]), int(a[5])
+    query = case.sk[case.q]
+    dbs = parse_dbspec(case, spec)
+    qf = case.tmp(f"query{len(case.cli_files)}.sig")
+    case.cli_files.append(qf)
+    with open(qf, "w") as fp:
+        sigmod.save_signatures_to_json([query], fp)
+    out_csv = case.tmp(f"out{len(case.cli_files)}.csv")
+    out_m = case.tmp(f"matches{len(case.cli_files)}.sig")
+    argv = ["search", qf] + [p for _, p in dbs] + ["--threshold", thrtext, "-o", out_csv, "--save-matches", out_m,
+                                                  "-n", str(nres)]
+    if mode == "c":
+        argv.append("--containment")
+    elif mode == "m":
+        argv.append("--max-containment")
+    if best:
+        argv.append("--best-only")
+    if ignore:
+        argv.append("--ignore-abundance")
+    code, stdout, exc = run_cli(argv)
+    if exc:
+        return f"err {exc}"
+    if code != 0:
+        return f"exit {code}"
+    rows = []
+    if os.path.exists(out_csv) and os.path.getsize(out_csv):
+        with open(out_csv, newline="") as fp:
+            for r in csv.DictReader(fp):
+                rows.append((r["name"], r["md5"], float(r["similarity"]).hex()))
+    saved = [(n, m) for n, m, _, _ in read_sig_hashes(out_m)] if os.path.exists(out_m) else []
+    shown = sum(1 for l in stdout.split("\n") if re.match(r"^\s*\d+\.\d%\s", l))
+    # the in-process answer on the same database files, put together as the command does
+    from sourmash.search import search_databases_with_flat_query, search_databases_with_abund_query
+    from sourmash import sourmash_args
+    q2 = next(iter(sourmash.load_file_as_signatures(qf)))
+    with contextlib.redirect_stdout(io.StringIO()):
+        loaded = sourmash_args.load_dbs_and_sigs([p for _, p in dbs], q2, mode == "j")
+    if q2.minhash.track_abundance and ignore:
+        with q2.update() as q2:
+            q2.minhash = q2.minhash.flatten()
+    kw = dict(threshold=float(thrtext), do_containment=(mode == "c"), do_max_containment=(mode == "m"),
+              best_only=bool(best), unload_data=True)
+    if q2.minhash.track_abundance:
+        api = search_databases_with_abund_query(q2, loaded, **kw)
+    else:
+        api = search_databases_with_flat_query(q2, loaded, **kw)
+    arows = [(r.match.name, r.match.md5sum(), float(r.similarity).hex()) for r in api]
+    return f"ok C={fmt_rows(rows)} A={fmt_rows(arows)} S={','.join(n + '/' + m for n, m in saved) or '-'} D={shown}"
+
+
+def cli_prefetch(case, a):
+    spec, bptext = a[0], a[1]
+    query = case.sk[case.q]
+    dbs = parse_dbspec(case, spec)
+    k = len(case.cli_files)
+    qf = case.tmp(f"query{k}.sig")
+    case.cli_files.append(qf)
+    with open(qf, "w") as fp:
+        sigmod.save_signatures_to_json([query], fp)
+    out_csv, out_m = case.tmp(f"pout{k}.csv"), case.tmp(f"pmatches{k}.sig")
+    out_u, out_k = case.tmp(f"punmatched{k}.sig"), case.tmp(f"pmatching{k}.sig")
+    argv = ["prefetch", qf] + [p for _, p in dbs] + ["--threshold-bp", bptext, "-o", out_csv, "--save-matches", out_m,
+                                                    "--save-unmatched-hashes", out_u, "--save-matching-hashes", out_k]
+    code, stdout, exc = run_cli(argv)
+    if exc:
+        return f"err {exc}"
+    if code != 0:
+        return f"exit {code}"
+    rows = []
+    if os.path.exists(out_csv) and os.path.getsize(out_csv):
+        with open(out_csv, newline="") as fp:
+            for r in csv.DictReader(fp):
+                rows.append((r["match_name"], r["match_md5"], f"{r['intersect_bp']}:{r['scaled']}"))
+    saved = [(n, m) for n, m, _, _ in read_sig_hashes(out_m)] if os.path.exists(out_m) else []
+    un = read_sig_hashes(out_u)
+    kn = read_sig_hashes(out_k)
+    # in-process: Index.prefetch on every database file, as the command selects it
+    q2 = next(iter(sourmash.load_file_as_signatures(qf)))
+    if q2.minhash.track_abundance:
+        with q2.update() as q2:
+            q2.minhash = q2.minhash.flatten()
+    arows = []
+    for _, p in dbs:
+        db = sourmash.load_file_as_index(p)
+        db = db.select(ksize=KSIZE, moltype="DNA", containment=True)
+        if not db:
+            continue
+        for r in db.prefetch(q2, float(bptext)):
+            arows.append((r.signature.name, r.signature.md5sum(), float(r.score).hex()))
+
+    def hs(x):
+        return (f"{x[0][2]}:" + ".".join(map(str, x[0][3]))) if x else "-"
+    return (f"ok C={fmt_rows(rows)} A={fmt_rows(arows)} S={','.join(n + '/' + m for n, m in saved) or '-'} "
+            f"U={hs(un)} K={hs(kn)}")
+
+
 def main():
     out = sys.stdout
     case = Case(0)
@@ -298,12 +506,19 @@ def main():
                     r = cont.best_containment(query, threshold_bp=bp)
                     flag, items = fmt_results([] if r is None else [r], False)
                     res = line(flag, "T", items)
+            elif op == "clisearch":
+                res = cli_search(case, a) if case.q is not None else "bad-op"
+            elif op == "cliprefetch":
+                res = cli_prefetch(case, a) if case.q is not None else "bad-op"
             else:
                 res = "bad-op"
         except BaseException as e:          # noqa: BLE001
             if isinstance(e, (KeyboardInterrupt, SystemExit)):
                 raise
             res = "err " + exc_name(e)
+            if os.environ.get("VERIF_DEBUG"):
+                import traceback
+                traceback.print_exc(file=sys.stderr)
         out.write(res + "\n")
     case.close()
     out.flush()
